@@ -231,7 +231,7 @@ def requires_grad(data):  # pragma: no cover
     return False
 
 
-def move_to(data, dtype, **kwargs):
+def move_to(data, dtype=None, **kwargs):
     return data.astype(dtype=DTYPE[dtype]) if dtype in DTYPE else data
 
 
